@@ -21,13 +21,12 @@ Definition fill_result (q : fileseq) : sresult :=
 
 Definition nonempty (s : bytes) : bool := match s with [] => false | _ => true end.
 
-Definition Panic_nil_seq : nat := 2.
-
-(** re-parse of a frame path followed by SetFrameRange(Itoa(Start())) *)
-Definition reparse_frame (path : bytes) (st : pstyle) : outcome fileseq :=
+(** re-parse of a frame path followed by SetFrameRange(Itoa(Start()));
+    [None] = the path does not parse (reported as the entry's error) *)
+Definition reparse_frame (path : bytes) (st : pstyle) : outcome (option fileseq) :=
   match new_fileseq path st with
-  | Ok q => Ok (fst (set_frame_range q (itoa (q_start q))))
-  | Err _ => Panic Panic_nil_seq        (* fs is nil: the next call dereferences it *)
+  | Ok q => Ok (Some (fst (set_frame_range q (itoa (q_start q)))))
+  | Err _ => Ok None
   | Panic n => Panic n
   | OutOfFuel => OutOfFuel
   end.
@@ -72,18 +71,21 @@ Definition seqinfo_parse (pattern : bytes) (o : sopts) (refmt : option bytes) : 
           | Some i =>
             match q_index q7 i with
             | [] => Ok None
-            | path => do q <- reparse_frame path st; Ok (Some q)
+            | path => reparse_frame path st
             end
           end in
       do o8 <- r8;
       match o8 with
       | None => Ok (err_result pattern)
       | Some q8 =>
-        do q9 <- match so_frame o with
-                 | None => Ok q8
+        do o9 <- match so_frame o with
+                 | None => Ok (Some q8)
                  | Some f => reparse_frame (q_frame_int q8 f) st
                  end;
-        Ok (fill_result q9)
+        match o9 with
+        | None => Ok (err_result pattern)
+        | Some q9 => Ok (fill_result q9)
+        end
       end
     end
   | Err _ => Ok (err_result pattern)
